@@ -186,7 +186,12 @@ class Lab:
             cfg.target = rng.choice([1, 40, 150, 600])
         from .content import Pool  # pylint: disable=import-outside-toplevel
 
-        pool = Pool(rng, 8, rng.choice(['tiny', 'small']), level=cfg.level, fixed=[b''] if rng.random() < 0.5 else None)
+        if self.focus == 'bigpack':
+            # more than a thousand loose objects packed by one call (the index is written in pages of 1000 elsewhere in the code)
+            pool = Pool(rng, 1040, 'tiny', level=cfg.level, fixed=[b''])
+            cfg.target = 4 * 1024 ** 3
+        else:
+            pool = Pool(rng, 8, rng.choice(['tiny', 'small']), level=cfg.level, fixed=[b''] if rng.random() < 0.5 else None)
         scratch = common.mkscratch(self.prop)
         res = store.CaseResult(case={'prop': self.prop, 'case_id': self.case_id, 'cfg': cfg.as_dict()})
         drv = common.Driver()
@@ -241,6 +246,14 @@ class Lab:
                 op['via'] = 'bytes'
             if op['op'] == 'reopen':
                 op = {'op': 'addLoose', 'on': 'a', 'c': rng.randrange(len(pool)), 'via': 'bytes'}
+            if self.focus == 'bigpack':
+                rca = runner.conts['a']
+                todo = [c_ for c_ in range(len(pool)) if c_ not in rca.expected][:1015]
+                for c_ in todo:
+                    rca.c.add_object(pool.contents[c_])
+                    rca.expected.add(c_)
+                    runner._ask(f'store op a addLoose {c_}')  # pylint: disable=protected-access
+                op = {'op': 'packAll', 'on': 'a', 'mode': rng.choice(['no', 'yes']), 'validate': False, 'clean': rng.random() < 0.5}
             if self.focus == 'delete':
                 # a deletion that hits every storage form: loose only, packed only, both, and a key that is not there
                 rca = runner.conts['a']
@@ -375,7 +388,14 @@ class Lab:
         self.sample = {'op': {k: v for k, v in op.items()}, 'cfg': cfg.as_dict(), 'raw_events': n, 'model_actions': n_model, 'tokens': real_toks[:40]}
         points = list(range(n + 1))
         if len(points) > self.max_points:
-            keep_pts = {0, n} | set(rng.sample(points, self.max_points - 2))
+            # always: the boundaries right after the calls that publish or remove something (commits, renames, links, unlinks,
+            # truncations, fsyncs), then a random sample of the rest
+            hot = [i + 1 for i, ev in enumerate(events) if ev and ev[0] in ('commit', 'rename', 'replace', 'remove', 'unlink', 'link', 'truncate', 'fsync')]
+            if len(hot) > self.max_points // 2:
+                hot = hot[:self.max_points // 4] + rng.sample(hot[self.max_points // 4:], self.max_points // 4)
+            keep_pts = {0, n} | set(hot)
+            rest = [x for x in points if x not in keep_pts]
+            keep_pts |= set(rng.sample(rest, max(0, min(len(rest), self.max_points - len(keep_pts)))))
             points = sorted(keep_pts)
         # the model is now told to perform the operation too (needed for the rerun expectation)
         expected_after = set(rc.expected)
